@@ -22,7 +22,7 @@ means the check was silent on the first try and the machinery was strengthened (
 input class or monitor added) until it fired; no oracle was loosened.
 
 '''+tbl+'''
-Of the %d seeded changes (five rounds of two changes per property, a sixth round for eight properties and a seventh for all nineteen; from round 2 on each
+Of the %d seeded changes (five rounds of two changes per property, a sixth round for eight properties, a seventh for all nineteen and an eighth for six; from round 2 on each
 sub-agent was told which triggers were already taken), %d were caught by the machinery as it stood and
 %d only after a strengthening; each strengthening widened an input class or added a monitor for every
 later run, and several exposed further genuine defects of the pinned tree along the way (blank fields,
